@@ -112,6 +112,11 @@ class Sphere(Domain):
     def _append_random(self, points_inside, n, params, device):
         if len(points_inside) == n:
             return points_inside
+        if len(points_inside) > n:
+            # more grid points than requested: keep n of them, evenly spread
+            # over the grid
+            index = torch.linspace(0, len(points_inside) - 1, n, device=device)
+            return points_inside[index.long()]
         random_points = self.sample_random_uniform(
             n=n - len(points_inside), params=params, device=device
         )
